@@ -6,7 +6,7 @@
    of SynchronousMemory (one) and DualPortSynchronousMemory (two), as resolved Verilog (matched syntactically per generated design).
    The simulator side is the REGENERATED SynchronousMemory_clock / DualPortSynchronousMemory_clock (Gen/Seq.v). *)
 From V Require Import Base.Bits Gen.WireOps Gen.Helpers Gen.Prims Gen.Seq Model.VSyntax Model.VSem Model.Inline Model.C01Mem
-  Model.SimKernel Model.Trace Model.C01Prim Model.C01Seq Proofs.C01.InlineSound Proofs.C01.MemSound Proofs.C01.SeqG4 Proofs.C01.MemExamples.
+  Model.SimKernel Model.Trace Model.C01Prim Model.C01Seq Proofs.C01.InlineSound Proofs.C01.MemSound Proofs.C01.SeqG4 Proofs.C01.MemExamples Proofs.C01.AsyncMem.
 
 (* an unsigned net used as address compares like its value *)
 Theorem C01_mem_index_net : forall env n, okn env n -> idx_is env (rid n) (getv env (fst n)).
@@ -97,6 +97,46 @@ Example C01_syncmem_nonvacuous :
   SynchronousMemory_clock 3 {| SynchronousMemory_s_data := [5; 2] |} 1 1 1 7 = ({| SynchronousMemory_s_data := [5; 7] |}, 2).
 Proof. exact syncmem_example. Qed.
 
+(* AsynchronousMemory:  assign readdata = mem[read_address];  always @( * ) if (write) mem[write_address] = writedata;
+   a flat design f consisting of exactly this body (one continuous assignment, one @* process), EVERY address width aw (depth 2^aw,
+   aw <= 31 for the literals), data width w, write-enable and write-data nets of ANY width (`if (write)` and Python's truth test both mean
+   "non-zero"; no 1-bit guard is needed), every stored contents and every in-range input values.  Guards: the five port nets are not memory
+   words and readdata is none of the inputs.  VSem's settle (with VSem's own fuel) terminates with flag true in an environment env' that
+   is a FIXPOINT of settle_pass, in which the words are the simulator's new contents (each truncated to w bits), readdata is the value
+   AsynchronousMemory_propagate puts, every other net is unchanged; and propagate() evaluated again there returns the same (idempotent,
+   as the simulator's repeated evaluation needs).  One pass is NOT enough in general (see the Example: the assign runs before the @*
+   write); the proof shows two passes reach the fixpoint. *)
+Theorem C01_asyncmem_sound : forall f env base aw w rd ra wa we wd st,
+  let d := Z.to_nat (2 ^ aw) in
+  f_assigns f = [body_asyncmem_read base w d rd ra] -> f_procs f = [(TStar, body_asyncmem_proc base w d wa we wd)] ->
+  0 < w -> 0 < aw <= 31 -> snd rd = w -> snd ra = aw -> snd wa = aw ->
+  okn env rd -> okn env ra -> okn env wa -> okn env we -> okn env wd ->
+  (base + d <= length env)%nat -> (fst rd < length env)%nat ->
+  ~ (base <= fst rd < base + d)%nat -> ~ (base <= fst ra < base + d)%nat -> ~ (base <= fst wa < base + d)%nat ->
+  ~ (base <= fst we < base + d)%nat -> ~ (base <= fst wd < base + d)%nat ->
+  fst rd <> fst ra -> fst rd <> fst wa -> fst rd <> fst we -> fst rd <> fst wd ->
+  mem_cells env base d = map (trunc w) (AsynchronousMemory_s_data st) ->
+  let '(st', o) := AsynchronousMemory_propagate w st (getv env (fst ra)) (getv env (fst wa)) (getv env (fst we)) (getv env (fst wd)) in
+  exists env', VSem.settle f (settle_fuel f) env = (env', true) /\
+    settle_pass f env' = env' /\
+    length env' = length env /\
+    mem_cells env' base d = map (trunc w) (AsynchronousMemory_s_data st') /\
+    getv env' (fst rd) = o /\
+    (forall j, ~ (base <= j < base + d)%nat -> j <> fst rd -> getv env' j = getv env j) /\
+    AsynchronousMemory_propagate w st' (getv env' (fst ra)) (getv env' (fst wa)) (getv env' (fst we)) (getv env' (fst wd)) = (st', o).
+Proof. exact asyncmem_sound. Qed.
+
+(* non-vacuity: a 2-word 3-bit AsynchronousMemory (nets ra wa we wd rd = 0..4, words 5 6) holding [5; 2]; write 7 to word 1 while reading
+   word 1.  The design passes the syntactic match; the first pass leaves the OLD word 2 on readdata, settle ends with 7 (write-through) *)
+Example C01_asyncmem_nonvacuous :
+  let env := [1; 1; 1; 7; 0; 5; 2] in
+  match_asyncmem ex_async_flat 5 3 2 (4%nat, 3) (0%nat, 1) (1%nat, 1) (2%nat, 1) (3%nat, 3) = true /\
+  mem_cells env 5 2 = map (trunc 3) [5; 2] /\
+  VSem.settle ex_async_flat (settle_fuel ex_async_flat) env = ([1; 1; 1; 7; 7; 5; 7], true) /\
+  settle_pass ex_async_flat env = [1; 1; 1; 7; 2; 5; 7] /\
+  AsynchronousMemory_propagate 3 {| AsynchronousMemory_s_data := [5; 2] |} 1 1 1 7 = ({| AsynchronousMemory_s_data := [5; 7] |}, 7).
+Proof. exact asyncmem_example. Qed.
+
 (* ================================================================ COMPOSITION with memories (Model/C01Seq.v, Proofs/C01/SeqG1-4.v)
    The sequential instances of a design are registers AND single-port synchronous memories (`sinst`); an instance owns PRIVATE nets
    (rq / rreaddata and the memory words) that only its posedge process writes, and drives its output through `assign out = src`.
@@ -158,3 +198,4 @@ Print Assumptions C01_mem_write_blocking_sound.
 Print Assumptions C01_syncmem_sound.
 Print Assumptions C01_syncmem_history.
 Print Assumptions C01_dualmem_sound.
+Print Assumptions C01_asyncmem_sound.
